@@ -32,6 +32,7 @@ def execute(case, prefix, seed):
     fmt, k, n, S = case["fmt"], case["k"], case["n"], case["S"]
     ch = grid.Chooser(prefix)
     g = grid.Grid(S, nclients=3, chooser=ch, split=True, client_kw=dict(k=k, n=n, happy=1))
+    g.sched.batch = bool(case.get("batch"))     # turn granularity, see grid.Sched.batch
     viol, obs = [], {}
     try:
         old = pattern(9, 20)
@@ -164,6 +165,8 @@ def run(tier, seed):
         cases = [c for c in cases if (c["k"], c["n"]) in ((1, 3), (2, 3))]
     # the root of each case runs first; its first-level children become separate parallel tasks
     res = grid.split_tasks(common.pmap, chunk, cases, (seed,), d, 0)
+    # the same with several events per reactor turn (grid.Sched.batch), one deviation less
+    res.merge(grid.split_tasks(common.pmap, chunk, [dict(c, batch=True) for c in cases], (seed,), d - 1, 0))
     cov = {
         "states": res.counts.get("executions", 0),
         "transitions": res.counts.get("transitions", 0),
@@ -172,7 +175,7 @@ def run(tier, seed):
         "deviation_bound_completed": d,
         "distinct_outcomes": len(res.distinct),
         "outcomes": {k[8:]: v for k, v in res.counts.items() if k.startswith("outcome:")},
-        "rule": "2 writers x %d (format,k,N,S) configurations; every interleaving of execute/response events with <= %d deviations from the canonical order" % (len(cases), d),
+        "rule": "2 writers x %d (format,k,N,S) configurations; every interleaving of execute/response events with <= %d deviations from the canonical order, and with <= %d when several events share a reactor turn" % (len(cases), d, d - 1),
     }
     return res, cov
 
